@@ -68,11 +68,19 @@ def gen_tree(ch, depth=0):
 def tokens_of(doc, ch, form):
     """-> token list [[kind, value], ...]; form: v1u / v1c / v2 / mixed (per-leaf choice)"""
     toks = []
+    # in part of the documents XML comments and processing instructions (inert, like white space) sit between the
+    # tags - at least two of them, so that faults land between them
+    inert = ch.flag("r.inert", 0.25)
+    INERT = ["<!-- generated 2024-05-01 -->", "<!--x-->", "<?target some data?>", "<!-- two\n lines -->"]
 
     def ws():
         w = WSS[ch.pick("r.ws", len(WSS))]
         if w:
             toks.append(["ws", w])
+        if inert and path and ch.flag("r.inert.here", 0.3):
+            # (only inside the root: what follows the final end tag is not what the property's truncation clause is
+            #  about, and the parser is free to ignore a cut-off comment there)
+            toks.append(["ws", INERT[ch.pick("r.inert.kind", len(INERT))]])
 
     path = []
 
@@ -101,6 +109,10 @@ def tokens_of(doc, ch, form):
             toks.append(["close", tag])
             ws()
     rec(doc)
+    if inert and sum(1 for t in toks if t[0] == "ws" and t[1].startswith("<")) < 2:
+        toks.insert(1, ["ws", INERT[0]])
+        last = max(i for i, t in enumerate(toks) if t[0] == "close")
+        toks.insert(last, ["ws", INERT[1]])
     return toks
 
 
